@@ -323,13 +323,13 @@ def reduceBin (c : RCtx) (op : Token) (lhs rhs : Expr) : Expr :=
 def reduceVarRef (c : RCtx) (v : Str) (t : DataType) : Expr :=
   match c.valuer with
   | none => .varRef v t
-  | some nv => if nv.now ≠ zeroTime ∧ v = "now()".toList then .time nv.now else .varRef v t
+  | some nv => if nv.now ≠ zeroTime ∧ v = ['n', 'o', 'w', '(', ')'] then .time nv.now else .varRef v t
 
 /-- The end of `reduceCall`, after the arguments are reduced. -/
 def reduceCallWith (c : RCtx) (name : Str) (args : List Expr) : Expr :=
   match c.valuer with
   | some nv =>
-    if args.all Expr.isLiteral ∧ name = "now".toList ∧ args.length = 0 then .time nv.now
+    if args.all Expr.isLiteral ∧ name = ['n', 'o', 'w'] ∧ args.length = 0 then .time nv.now
     else .call name args
   | none => .call name args
 
